@@ -35,7 +35,7 @@ def deriveStep (s : DState) : List String → Option (DState × String)
       if accepts d then
         let n := d.variants.length
         -- the laws, evaluated on the model of the generated code for raw = 0 .. n + 2
-        let lt := SourceFacts.deriveAssertLt
+        let lt := DriverFacts.deriveAssertLt
         let inRange := (List.range n).all (fun raw => fromRaw lt d raw == some raw && intoRaw d raw == some raw)
         let outRange := (List.range 3).all (fun j => (fromRaw lt d (n + j)).isNone)
         let texts := (List.range n).map (fun i => match staticTextOf d i with | some t => encodeText t | none => "none")
